@@ -55,6 +55,8 @@ def invariants(snap):
     for view in ('core', 'texts', 'rslang'):
         if sorted(snap[view]) != uids:
             bad.append((f'view-{view}', f"{view} view {sorted(snap[view])} vs constituents {uids}"))
+    if snap.get('gone_tracked'):
+        bad.append(('erased-still-tracked', f"erased constituents {snap['gone_tracked']} are still in the tracking view"))
     if snap['graph_items'] != len(uids):
         bad.append(('view-graph', f"dependency graph has {snap['graph_items']} items, schema has {len(uids)}"))
     aliases = {}
